@@ -389,10 +389,16 @@ func Decorate(t *rapid.T, root *ref.Node, o Opts) {
 	if lv == AnyValue {
 		lv = rapid.IntRange(Dyadic, Arbitrary).Draw(t, "lenvals")
 	}
+	// one tree in eight with dyadic lengths has them all scaled by 2^-40 (lengths of 1e-12 .. 1e-8, as
+	// between nearly identical sequences): sums stay exact, fixed numbers of decimals do not
+	scale := 1.0
+	if (lv == Dyadic || lv == DyadicZ) && lens != None && rapid.IntRange(0, 7).Draw(t, "tinylens") == 3 {
+		scale = math.Ldexp(1, -40)
+	}
 	innerID := 0
 	root.Walk(func(x, p *ref.Node) {
 		if p != nil && present(t, lens, "haslen") {
-			x.Len = ref.F(Length(t, lv))
+			x.Len = ref.F(Length(t, lv) * scale)
 		}
 		if !x.IsTip() {
 			named := present(t, inames, "hasname")
@@ -424,20 +430,38 @@ func Decorate(t *rapid.T, root *ref.Node, o Opts) {
 	})
 }
 
-// IsDyadicExact tells whether every present length is a multiple of 2^-10 below 2^20, so
-// that every path sum is exact in float64.
-func IsDyadicExact(root *ref.Node) bool {
-	ok := true
-	root.Walk(func(x, p *ref.Node) {
-		if x.Len != nil {
-			v := *x.Len * 1024
-			if v != math.Trunc(v) || math.Abs(v) > 1<<30 {
-				ok = false
+// grid of a set of trees: 0 = only zeros / no length, 1 = every length is a multiple of 2^-10 of
+// magnitude at most 2^20, 2 = every length is a multiple of 2^-50 of magnitude at most 2^-20 (the
+// lengths scaled by 2^-40), -1 = anything else, or lengths of both grids.
+func grid(ms []*ref.Node) int {
+	g := 0
+	for _, root := range ms {
+		root.Walk(func(x, p *ref.Node) {
+			if x.Len == nil || *x.Len == 0 || g < 0 {
+				return
 			}
-		}
-	})
-	return ok
+			k := -1
+			if v := *x.Len * 1024; v == math.Trunc(v) && math.Abs(v) <= 1<<30 {
+				k = 1
+			} else if v := math.Ldexp(*x.Len, 50); v == math.Trunc(v) && math.Abs(v) <= 1<<30 {
+				k = 2
+			}
+			if k < 0 || (g > 0 && g != k) {
+				g = -1
+				return
+			}
+			g = k
+		})
+	}
+	return g
 }
+
+// IsDyadicExact tells whether every sum of present lengths of the tree is exact in float64
+// whatever the order of the additions: all lengths lie on one grid of dyadic numbers.
+func IsDyadicExact(root *ref.Node) bool { return grid([]*ref.Node{root}) >= 0 }
+
+// AllDyadicExact is IsDyadicExact for sums that run over several trees (means, differences).
+func AllDyadicExact(ms []*ref.Node) bool { return grid(ms) >= 0 }
 
 // ---------------------------------------------------------------------------------------
 // Model perturbations producing related trees on the same taxa
